@@ -10,7 +10,7 @@ from .. import effects
 from ...utils.bitfun import wrap_negative, wrap_signed
 from ..token import Token, u8, u16, u32, u64, bit_range, bit
 from .registers import rcx, al, cl, rax, rdx, rbp, eax, edx, ecx, cx, dx
-from .registers import rsp, ax, Register32
+from .registers import rsp, ax, rsi, rdi, Register32
 from .registers import Register64, Register16, Register8
 
 isa = Isa()
@@ -185,6 +185,16 @@ class X86Instruction(Instruction):
 
     tokens = [ModRmToken]
     isa = isa
+
+    # Registers which are read / written by the instruction without being
+    # an operand (for example rdx:rax for div, or cl for shifts):
+    implicit_uses = ()
+    implicit_defs = ()
+
+    def __init__(self, *args, **kwargs):
+        super().__init__(*args, **kwargs)
+        self.extra_uses.extend(self.implicit_uses)
+        self.extra_defs.extend(self.implicit_defs)
 
 
 class NearJump(X86Instruction):
@@ -511,6 +521,22 @@ class RmReg8(Constructor):
         tokens.set_field("rm", self.reg_rm.regbits)
 
 
+class RmDestMixin:
+    """Mixin for instructions which write their r/m operand.
+
+    The register of a register mode r/m operand is marked as read by its
+    constructor (which is shared with source operands). When the r/m operand
+    is the destination, the register is defined as well.
+    """
+
+    @property
+    def defined_registers(self):
+        regs = super().defined_registers
+        if isinstance(self.rm, (RmReg64, RmReg32, RmReg16, RmReg8)):
+            regs.append(self.rm.reg_rm)
+        return regs
+
+
 mem_modes = (RmMem, RmMemDisp, RmMemDisp2)
 rm64_modes = mem_modes + (RmReg64, RmRip, RmAbsLabel, RmAbs)
 rm8_modes = mem_modes + (RmReg8,)
@@ -716,12 +742,13 @@ class RmBase16(rmregbase16):
         tokens.set_field("opcode", self.opcode)
 
 
-def make_rm64(mnemonic, opcode, o):
+def make_rm64(mnemonic, opcode, o, write_rm=True):
     """Create an instruction taking a 64 bit r/m operand"""
     rm = Operand("rm", rm64_modes)
     syntax = Syntax([mnemonic, " ", rm], priority=2)
     members = {"syntax": syntax, "rm": rm, "opcode": opcode, "reg": o}
-    return type(mnemonic.title(), (RmBase,), members)
+    bases = (RmDestMixin, RmBase) if write_rm else (RmBase,)
+    return type(mnemonic.title(), bases, members)
 
 
 def make_rm32(mnemonic, opcode, o):
@@ -729,7 +756,7 @@ def make_rm32(mnemonic, opcode, o):
     rm = Operand("rm", rm32_modes)
     syntax = Syntax([mnemonic, " ", rm], priority=2)
     members = {"syntax": syntax, "rm": rm, "opcode": opcode, "reg": o}
-    return type(mnemonic.title(), (RmBase32,), members)
+    return type(mnemonic.title(), (RmDestMixin, RmBase32), members)
 
 
 def make_rm16(mnemonic, opcode, o):
@@ -737,11 +764,11 @@ def make_rm16(mnemonic, opcode, o):
     rm = Operand("rm", rm16_modes)
     syntax = Syntax([mnemonic, " ", rm], priority=2)
     members = {"syntax": syntax, "rm": rm, "opcode": opcode, "reg": o}
-    return type(mnemonic.title(), (RmBase16,), members)
+    return type(mnemonic.title(), (RmDestMixin, RmBase16), members)
 
 
 Dec = make_rm64("dec", 0xFF, 1)
-Jmp = make_rm64("jmp", 0xFF, 4)
+Jmp = make_rm64("jmp", 0xFF, 4, write_rm=False)
 # Inc = make_rm('jmp', 0xff, 4)
 
 
@@ -751,7 +778,8 @@ def make_rm_reg64(mnemonic, opcode, read_op1=True, write_op1=True):
     reg = Operand("reg", Register64, read=True)
     syntax = Syntax([mnemonic, " ", rm, ",", " ", reg], priority=0)
     members = {"syntax": syntax, "rm": rm, "reg": reg, "opcode": opcode}
-    return type(mnemonic + "_ins", (rmregbase64,), members)
+    bases = (RmDestMixin, rmregbase64) if write_op1 else (rmregbase64,)
+    return type(mnemonic + "_ins", bases, members)
 
 
 def make_rm_reg32(mnemonic, opcode, read_op1=True, write_op1=True):
@@ -760,7 +788,8 @@ def make_rm_reg32(mnemonic, opcode, read_op1=True, write_op1=True):
     reg = Operand("reg", Register32, read=True)
     syntax = Syntax([mnemonic, " ", rm, ",", " ", reg], priority=0)
     members = {"syntax": syntax, "rm": rm, "reg": reg, "opcode": opcode}
-    return type(mnemonic + "_ins", (rmregbase32,), members)
+    bases = (RmDestMixin, rmregbase32) if write_op1 else (rmregbase32,)
+    return type(mnemonic + "_ins", bases, members)
 
 
 def make_rm_reg16(mnemonic, opcode, read_op1=True, write_op1=True):
@@ -769,7 +798,8 @@ def make_rm_reg16(mnemonic, opcode, read_op1=True, write_op1=True):
     reg = Operand("reg", Register16, read=True)
     syntax = Syntax([mnemonic, " ", rm, ",", " ", reg], priority=0)
     members = {"syntax": syntax, "rm": rm, "reg": reg, "opcode": opcode}
-    return type(mnemonic + "_ins", (rmregbase16,), members)
+    bases = (RmDestMixin, rmregbase16) if write_op1 else (rmregbase16,)
+    return type(mnemonic + "_ins", bases, members)
 
 
 def make_rm_reg8(mnemonic, opcode, read_op1=True, write_op1=True):
@@ -778,7 +808,8 @@ def make_rm_reg8(mnemonic, opcode, read_op1=True, write_op1=True):
     reg = Operand("reg", Register8, read=True)
     syntax = Syntax([mnemonic, " ", rm, ",", " ", reg], priority=0)
     members = {"syntax": syntax, "rm": rm, "reg": reg, "opcode": opcode}
-    return type(mnemonic + "_ins", (rmregbase64,), members)
+    bases = (RmDestMixin, rmregbase64) if write_op1 else (rmregbase64,)
+    return type(mnemonic + "_ins", bases, members)
 
 
 def make_reg_rm64(mnemonic, opcode, read_op1=True, write_op1=True):
@@ -936,9 +967,12 @@ class InstructionCollection:
         else:
             raise NotImplementedError(str(bits))
 
-        class shift_cl_base(X86Instruction):
+        count_reg = {16: cx, 32: ecx, 64: rcx}[bits]
+
+        class shift_cl_base(RmDestMixin, X86Instruction):
             rm = Operand("rm", rm_modes)
             tokens = bit_tokens
+            implicit_uses = (count_reg,)
             patterns = {"opcode": 0xD3}
             for k, v in extra_patterns.items():
                 patterns[k] = v
@@ -1028,8 +1062,9 @@ XorImm = make_regimm("xor", 0x81, 6)
 CmpImm = make_regimm("cmp", 0x81, 7)
 
 
-class shift8_cl_base(X86Instruction):
+class shift8_cl_base(RmDestMixin, X86Instruction):
     rm = Operand("rm", rm8_modes)
+    implicit_uses = (cl,)
     tokens = [RexToken, OpcodeToken, ModRmToken]
     patterns = {"opcode": 0xD2}
     opcode = 0xD2
@@ -1109,6 +1144,8 @@ class Div(X86Instruction):
     rdx and the quotient in rax.
     """
 
+    implicit_uses = (rax, rdx)
+    implicit_defs = (rax, rdx)
     reg1 = Operand("reg1", Register64, read=True)
     syntax = Syntax(["div", " ", reg1])
     tokens = [RexToken, OpcodeToken, ModRmToken]
@@ -1127,6 +1164,8 @@ class Idiv(X86Instruction):
     rdx and the quotient in rax.
     """
 
+    implicit_uses = (rax, rdx)
+    implicit_defs = (rax, rdx)
     reg1 = Operand("reg1", Register64, read=True)
     syntax = Syntax(["idiv", " ", reg1])
     tokens = [RexToken, OpcodeToken, ModRmToken]
@@ -1145,6 +1184,8 @@ class Div32(X86Instruction):
     rdx and the quotient in rax.
     """
 
+    implicit_uses = (eax, edx)
+    implicit_defs = (eax, edx)
     reg1 = Operand("reg1", Register32, read=True)
     syntax = Syntax(["div", " ", reg1])
     tokens = [RexToken, OpcodeToken, ModRmToken]
@@ -1163,6 +1204,8 @@ class Idiv32(X86Instruction):
     rdx and the quotient in rax.
     """
 
+    implicit_uses = (eax, edx)
+    implicit_defs = (eax, edx)
     reg1 = Operand("reg1", Register32, read=True)
     syntax = Syntax(["idiv", " ", reg1])
     tokens = [RexToken, OpcodeToken, ModRmToken]
@@ -1181,6 +1224,8 @@ class Div16(X86Instruction):
     dx and the quotient in ax.
     """
 
+    implicit_uses = (ax, dx)
+    implicit_defs = (ax, dx)
     reg1 = Operand("reg1", Register16, read=True)
     syntax = Syntax(["div", " ", reg1])
     tokens = [PrefixToken, OpcodeToken, ModRmToken]
@@ -1198,6 +1243,8 @@ class Idiv16(X86Instruction):
     dx and the quotient in ax.
     """
 
+    implicit_uses = (ax, dx)
+    implicit_defs = (ax, dx)
     reg1 = Operand("reg1", Register16, read=True)
     syntax = Syntax(["idiv", " ", reg1])
     tokens = [PrefixToken, OpcodeToken, ModRmToken]
@@ -1303,6 +1350,8 @@ class MovAdr(X86Instruction):
 class Cdqe(X86Instruction):
     """Convert with sign extension to double size"""
 
+    implicit_uses = (eax,)
+    implicit_defs = (rax,)
     syntax = Syntax(["cdqe"])
     tokens = [RexToken, OpcodeToken]
     patterns = {"w": 1, "opcode": 0x98}
@@ -1311,6 +1360,8 @@ class Cdqe(X86Instruction):
 class Cwd(X86Instruction):
     """Convert ax with sign extension to double size into dx:ax"""
 
+    implicit_uses = (ax,)
+    implicit_defs = (dx,)
     syntax = Syntax(["cwd"])
     tokens = [PrefixToken, OpcodeToken]
     patterns = {"prefix": 0x66, "opcode": 0x99}
@@ -1319,6 +1370,8 @@ class Cwd(X86Instruction):
 class Cdq(X86Instruction):
     """Convert with sign extension to double size into edx:eax"""
 
+    implicit_uses = (eax,)
+    implicit_defs = (edx,)
     syntax = Syntax(["cdq"])
     tokens = [RexToken, OpcodeToken]
     patterns = {"w": 0, "opcode": 0x99}
@@ -1327,6 +1380,8 @@ class Cdq(X86Instruction):
 class Cqo(X86Instruction):
     """Convert with sign extension to double size into rdx:rax"""
 
+    implicit_uses = (rax,)
+    implicit_defs = (rdx,)
     syntax = Syntax(["cqo"])
     tokens = [RexToken, OpcodeToken]
     patterns = {"w": 1, "opcode": 0x99}
@@ -1335,6 +1390,8 @@ class Cqo(X86Instruction):
 class Rep(X86Instruction):
     """Repeat string operation prefix"""
 
+    implicit_uses = (rcx,)
+    implicit_defs = (rcx,)
     syntax = Syntax(["rep"])
 
     def encode(self):
@@ -1344,6 +1401,8 @@ class Rep(X86Instruction):
 class Movsb(X86Instruction):
     """Move data from string to string"""
 
+    implicit_uses = (rsi, rdi)
+    implicit_defs = (rsi, rdi)
     syntax = Syntax(["movsb"])
 
     def encode(self):
